@@ -5,6 +5,12 @@ from .interp import NAN, U64, Iter, LV, Obj, Opt, Sc, SharedPtr, Vec, box, val
 from .r_reg import BSE, Cases, World, fmt, index_reps, windows
 
 
+def _ns(lo, hi, ns):
+    """Grid sizes handled by this job: lo..hi, or the explicit subset ns."""
+    full = range(lo, hi + 1)
+    return [n for n in full if ns is None or n in ns]
+
+
 # ------------------------------------------------------------------------------------------------
 # specification (written from the property statements, independent of the code)
 # ------------------------------------------------------------------------------------------------
@@ -72,12 +78,12 @@ def is_grid_elem(o, k):
 
 
 # ------------------------------------------------------------------------------------------------
-def support_suite(chk, w, rule, nmax):
+def support_suite(chk, w, rule, nmax, ns=None, fixed=True):
     cs = Cases(chk, rule, w)
     SUP = w.SUP
     M = lambda name, n=0: w.method(SUP, name, n)
     regions = 0
-    for n in range(2, nmax + 1):
+    for n in _ns(2, nmax, ns):
         g = w.mk_grid(w.grid_values(n))
         if g.kind != "val":
             cs.expect(w.method(w.GRID, "size", 0), "Grid construction accepts a strictly increasing sequence",
@@ -261,12 +267,12 @@ def different_grids(w, n):
 
 
 # ------------------------------------------------------------------------------------------------
-def grid_suite(chk, w, rule, maxlen):
+def grid_suite(chk, w, rule, maxlen, ns=None, fixed=True, ctors=True, accessors=True):
     cs = Cases(chk, rule, w)
     GRID = w.GRID
     M = lambda name, n=0: w.method(GRID, name, n)
     alphabet = [Sc(0), Sc(1), Sc(2), Sc(NAN)]
-    ctors = {
+    ctor_tab = {
         "vector": w.ctor(GRID, lambda d: len(d["params"]) == 1 and d["params"][0]["type"].startswith("std::vector<"),
                          "vector"),
         "iterators": w.ctor(GRID, lambda d: len(d["params"]) == 2 and "__normal_iterator" in d["params"][0]["type"],
@@ -278,7 +284,7 @@ def grid_suite(chk, w, rule, maxlen):
     }
 
     def build(kind, seq):
-        d = ctors[kind]
+        d = ctor_tab[kind]
         v = Vec(list(seq))
         if kind == "vector":
             args = [box(v)]
@@ -298,9 +304,9 @@ def grid_suite(chk, w, rule, maxlen):
                 return False
         return True
 
-    for L in range(0, maxlen + 1):
+    for L in (range(0, maxlen + 1) if (fixed and ctors) else ()):
         for seq in itertools.product(alphabet, repeat=L):
-            for kind, d in ctors.items():
+            for kind, d in ctor_tab.items():
                 o = build(kind, seq)
                 v = valid(seq)
                 cf = w.I.func(d["id"])
@@ -308,12 +314,15 @@ def grid_suite(chk, w, rule, maxlen):
                           dict(points=[fmt(x) for x in seq]), o, (o.kind == "val") if v else o.throws_lib(),
                           "a grid" if v else "throws BSplineException")
     # null shared_ptr
-    d = ctors["shared_ptr"]
-    o = w.run(lambda: w.I.construct(d, [box(SharedPtr(None))]), "Grid(nullptr)")
-    cs.expect(w.I.func(d["id"]), "Grid(shared_ptr) refuses a null pointer", dict(points="null"), o, o.throws_lib(),
-              "throws BSplineException")
+    if fixed and ctors:
+        d = ctor_tab["shared_ptr"]
+        o = w.run(lambda: w.I.construct(d, [box(SharedPtr(None))]), "Grid(nullptr)")
+        cs.expect(w.I.func(d["id"]), "Grid(shared_ptr) refuses a null pointer", dict(points="null"), o,
+                  o.throws_lib(), "throws BSplineException")
+    if not accessors:
+        return cs.flush()
     # accessors on valid grids
-    for n in range(2, maxlen + 3):
+    for n in _ns(2, maxlen + 2, ns):
         vals = w.grid_values(n)
         grid = w.mk_grid(vals).v
         case = dict(n=n)
